@@ -34,7 +34,7 @@ ContractCfg == [svcs |-> Services, required |-> {"host", "ident", "nick", "user"
 TInit == /\ Init
          /\ l = 1
          /\ cst = A!CInit(ContractCfg)
-         /\ bad = FALSE
+         /\ bad = {}
          /\ drifted = FALSE
 
 \* observed output with the fields B does not predict erased
@@ -46,7 +46,7 @@ ErasedOut(o) == [k \in 1..Len(o) |-> Erase(o[k])]
 TReset == /\ TraceLog[l].e = "Reset"
           /\ serial' = 0 /\ req' = <<>> /\ slots' = InitSlots /\ ev' = [e |-> "init"] /\ out' = <<>>
           /\ cst' = A!CInit(ContractCfg)
-          /\ bad' = FALSE /\ drifted' = FALSE
+          /\ bad' = {} /\ drifted' = FALSE
           /\ l' = l + 1
 
 TStep == /\ TraceLog[l].e = "S"
@@ -54,26 +54,27 @@ TStep == /\ TraceLog[l].e = "S"
                 r == A!CStep(cst, rec.ev, rec.o, rec.n)
             IN /\ Step(rec.ev)
                /\ cst' = r.c
-               /\ bad' = (bad \/ r.v # {})
-               /\ (bad \/ r.v = {} \/ PrintT("@@V" \o ToJson([l |-> l, v |-> r.v])))
+               /\ bad' = bad \cup r.v          \* each conjunct is reported once per history
+               /\ IF r.v \subseteq bad THEN TRUE ELSE PrintT("@@V" \o ToJson([l |-> l, v |-> r.v \ bad]))
                /\ LET d == (out' # ErasedOut(rec.o)) \/ (rec.n # -1 /\ rec.n # Cardinality(DOMAIN req'))
                   IN /\ drifted' = (drifted \/ d)
-                     /\ (drifted \/ ~d \/ PrintT("@@D" \o ToJson([l |-> l, want |-> out', wantn |-> Cardinality(DOMAIN req')])))
+                     /\ IF drifted \/ ~d THEN TRUE
+                        ELSE PrintT("@@D" \o ToJson([l |-> l, want |-> out', wantn |-> Cardinality(DOMAIN req')]))
          /\ l' = l + 1
 
 \* the daemon died (or hung) inside a step: the step never completed
 TCrash == /\ TraceLog[l].e = "Crash"
           /\ PrintT("@@V" \o ToJson([l |-> l, v |-> {"crash"}]))
           /\ UNCHANGED <<serial, req, slots, ev, out, cst, drifted>>
-          /\ bad' = TRUE
+          /\ bad' = bad \cup {"crash"}
           /\ l' = l + 1
 
 \* end of input: the daemon must exit with status 0 and without a sanitizer report
 TEof == /\ TraceLog[l].e = "Eof"
         /\ LET rec == TraceLog[l]
                v == (IF rec.exit # 0 THEN {"exit"} ELSE {}) \cup (IF rec.san # "" THEN {"sanitizer"} ELSE {})
-           IN /\ bad' = (bad \/ v # {})
-              /\ (bad \/ v = {} \/ PrintT("@@V" \o ToJson([l |-> l, v |-> v])))
+           IN /\ bad' = bad \cup v
+              /\ IF v \subseteq bad THEN TRUE ELSE PrintT("@@V" \o ToJson([l |-> l, v |-> v \ bad]))
         /\ UNCHANGED <<serial, req, slots, ev, out, cst, drifted>>
         /\ l' = l + 1
 
